@@ -1099,6 +1099,110 @@ func mergeStream(c *cli.Ctx, r *emit.Rng, n int) error {
 	return w.Flush()
 }
 
+// ---------- known findings (known_findings.txt) ----------
+
+// gatherOrdered gathers the metrics from ONE unchecked collector, i.e. in exactly the given order.
+func gatherOrdered(pedantic bool, build func(rc *recorder) []prometheus.Metric) (arr string, out gatherOut, ids string) {
+	reg := prometheus.NewRegistry()
+	if pedantic {
+		reg = prometheus.NewPedanticRegistry()
+	}
+	rc := newRecorder()
+	reg.MustRegister(&advCollector{metrics: build(rc)})
+	out, _ = gatherWithWatchdog(reg)
+	arr, _ = arrivalsTerm(rc)
+	return arr, out, idsTerm(reg)
+}
+
+// known-multi-payload-order: a metric with only the lower-priority payload and one with both payloads under one Desc;
+// whether Gather reports an error depends on which of the two arrives first.
+func knownMultiPayload(c *cli.Ctx, r *emit.Rng) error {
+	w := emit.NewWriter(c.Out, "C09", "known-multi-payload-order")
+	setScheme(false)
+	prio := []int{1, 0, 2, 3, 4} // the order of the switch in processMetric: gauge, counter, summary, untyped, histogram
+	for i := 0; i < 10; i++ {
+		a := r.Intn(4)
+		hi, lo := prio[a], prio[a+1+r.Intn(4-a)]
+		name := []string{"m", "req_total", "x"}[r.Intn(3)]
+		var vars []string
+		if r.Bool() {
+			vars = []string{"a"}
+		}
+		d := prometheus.NewDesc(name, "h", vars, nil)
+		mk := func(rc *recorder, both bool, val string) prometheus.Metric {
+			x := rc.newRec(false)
+			m := &dto.Metric{}
+			if len(vars) > 0 {
+				m.Label = []*dto.LabelPair{lp("a", val)}
+			} else if both {
+				t := int64(5)
+				m.TimestampMs = &t
+			}
+			setPayload(m, lo, x.uid)
+			if both {
+				setPayload(m, hi, x.uid)
+			}
+			return &advMetric{r: rc, x: x, d: d, content: m}
+		}
+		// uids: the single-payload metric is always number 1, the double one number 2
+		arr1, out1, ids := gatherOrdered(false, func(rc *recorder) []prometheus.Metric {
+			s, b := mk(rc, false, "1"), mk(rc, true, "2")
+			return []prometheus.Metric{s, b}
+		})
+		arr2, out2, _ := gatherOrdered(false, func(rc *recorder) []prometheus.Metric {
+			s, b := mk(rc, false, "1"), mk(rc, true, "2")
+			return []prometheus.Metric{b, s}
+		})
+		term := emit.Tup("2", "0", "0", ids, arr1, familiesTerm(out1.mfs), kindsTerm(out1.kinds), arr2, familiesTerm(out2.mfs), kindsTerm(out2.kinds))
+		w.Add(term, true, fmt.Sprintf("payloads:%d+%d", hi, lo))
+	}
+	return w.Flush()
+}
+
+type forgedMetric struct {
+	r *recorder
+	x *rec
+	d *prometheus.Desc
+	m *dto.Metric
+}
+
+func (m *forgedMetric) Desc() *prometheus.Desc { m.r.sawDesc(m.x, m.d); return m.d }
+func (m *forgedMetric) Write(out *dto.Metric) error {
+	out.Label, out.Gauge = m.m.Label, m.m.Gauge
+	m.x.content, m.x.written = metricTerm(out), true
+	return nil
+}
+
+// known-forged-desc: Desc() returns the zero value &prometheus.Desc{} (no error, empty name).
+func knownForgedDesc(c *cli.Ctx, r *emit.Rng) error {
+	w := emit.NewWriter(c.Out, "C09", "known-forged-desc")
+	setScheme(false)
+	for i := 0; i < 6; i++ {
+		pedantic := r.Bool()
+		withOther := r.Bool()
+		arr, out, ids := gatherOrdered(pedantic, func(rc *recorder) []prometheus.Metric {
+			var ms []prometheus.Metric
+			x := rc.newRec(false)
+			m := &dto.Metric{}
+			setPayload(m, 1, x.uid)
+			if r.Bool() {
+				m.Label = []*dto.LabelPair{lp("a", "1")}
+			}
+			ms = append(ms, &forgedMetric{r: rc, x: x, d: &prometheus.Desc{}, m: m})
+			if withOther {
+				y := rc.newRec(false)
+				m2 := &dto.Metric{}
+				setPayload(m2, 1, y.uid)
+				ms = append(ms, &advMetric{r: rc, x: y, d: prometheus.NewDesc("ok", "h", nil, nil), content: m2})
+			}
+			return ms
+		})
+		term := emit.Tup("0", "0", emit.B(pedantic), ids, arr, familiesTerm(out.mfs), kindsTerm(out.kinds))
+		w.Add(term, true, fmt.Sprintf("families:%d", len(out.mfs)))
+	}
+	return w.Flush()
+}
+
 func runC09(c *cli.Ctx) error {
 	r := emit.NewRng(c.Seed)
 	if err := advStream(c, r.Fork(), "adv", 700*c.Scale, false); err != nil {
@@ -1110,5 +1214,11 @@ func runC09(c *cli.Ctx) error {
 	if err := builtinStream(c, r.Fork(), 300*c.Scale); err != nil {
 		return err
 	}
-	return mergeStream(c, r.Fork(), 400*c.Scale)
+	if err := mergeStream(c, r.Fork(), 400*c.Scale); err != nil {
+		return err
+	}
+	if err := knownMultiPayload(c, r.Fork()); err != nil {
+		return err
+	}
+	return knownForgedDesc(c, r.Fork())
 }
